@@ -143,6 +143,8 @@ def generate(rng, tier, index):
         if logfile_first and k > 0 and op["rt"]["kind"] == "cli" and rng.random() < 0.7:
             # later invocation logs, but names no log file of its own
             op["rt"]["argv"] = ["--log-level", rng.choice(["DEBUG", "INFO"])] + op["rt"]["argv"]
+        if kind == "fix" and rng.random() < 0.12:
+            op["rt"]["argv"] = ["--log-level", "INFO"] + op["rt"]["argv"]
         if kind == "fix" and not probe_only and rng.random() < 0.3:
             # a contained rule/parser fault in one file of a fix run (any pass): what is
             # announced as Fixed must still be exactly what changed
